@@ -239,9 +239,10 @@ package modeling
 //@     invariant fresh(finalV4Data) && finalV4Data != nil
 
 //@ func Mesh.ModifyFloat1Attribute
-//@   props C10 C03
+//@   props C10 C03 C01
 //@   callback f: pure
 //@   returns r
+//@   ensures nothing_else: onlyV1Replaced(r, m, atr)
 //@   ensures same_length: len(r.v1Data[atr]) == len(m.v1Data[atr])
 //@   ensures elementwise: forall k int :: 0 <= k && k < len(m.v1Data[atr]) ==> r.v1Data[atr][k] == f(k, m.v1Data[atr][k])
 //@   loop 1:
@@ -263,11 +264,12 @@ package modeling
 //@     invariant outside_untouched: forall k int :: 0 <= k && k < len(modified) && !(start <= k && k < i) ==> modified[k] == old(modified[k])
 
 //@ func Mesh.ModifyFloat1AttributeParallelWithPoolSize
-//@   props C10
+//@   props C10 C01
 //@   forkjoin wg
 //@   callback f: pure
 //@   requires forall k int :: forked(k) == 0
 //@   returns r
+//@   ensures nothing_else: onlyV1Replaced(r, m, atr)
 //@   ensures same_length: len(r.v1Data[atr]) == len(m.v1Data[atr])
 //@   ensures elementwise: forall k int :: 0 <= k && k < len(m.v1Data[atr]) ==> r.v1Data[atr][k] == f(k, m.v1Data[atr][k])
 //@   loop 1:
@@ -278,9 +280,10 @@ package modeling
 //@     invariant forked: forall k int :: forked(k) == visitedOnce(k, 0, (i == size) ? len(oldData) : workSize * i)
 
 //@ func Mesh.ModifyFloat2Attribute
-//@   props C10 C03
+//@   props C10 C03 C01
 //@   callback f: pure
 //@   returns r
+//@   ensures nothing_else: onlyV2Replaced(r, m, atr)
 //@   ensures same_length: len(r.v2Data[atr]) == len(m.v2Data[atr])
 //@   ensures elementwise: forall k int :: 0 <= k && k < len(m.v2Data[atr]) ==> r.v2Data[atr][k] == f(k, m.v2Data[atr][k])
 //@   loop 1:
@@ -302,11 +305,12 @@ package modeling
 //@     invariant outside_untouched: forall k int :: 0 <= k && k < len(modified) && !(start <= k && k < i) ==> modified[k] == old(modified[k])
 
 //@ func Mesh.ModifyFloat2AttributeParallelWithPoolSize
-//@   props C10
+//@   props C10 C01
 //@   forkjoin wg
 //@   callback f: pure
 //@   requires forall k int :: forked(k) == 0
 //@   returns r
+//@   ensures nothing_else: onlyV2Replaced(r, m, atr)
 //@   ensures same_length: len(r.v2Data[atr]) == len(m.v2Data[atr])
 //@   ensures elementwise: forall k int :: 0 <= k && k < len(m.v2Data[atr]) ==> r.v2Data[atr][k] == f(k, m.v2Data[atr][k])
 //@   loop 1:
@@ -317,9 +321,10 @@ package modeling
 //@     invariant forked: forall k int :: forked(k) == visitedOnce(k, 0, (i == size) ? len(oldData) : workSize * i)
 
 //@ func Mesh.ModifyFloat3Attribute
-//@   props C10 C03
+//@   props C10 C03 C01
 //@   callback f: pure
 //@   returns r
+//@   ensures nothing_else: onlyV3Replaced(r, m, atr)
 //@   ensures same_length: len(r.v3Data[atr]) == len(m.v3Data[atr])
 //@   ensures elementwise: forall k int :: 0 <= k && k < len(m.v3Data[atr]) ==> r.v3Data[atr][k] == f(k, m.v3Data[atr][k])
 //@   loop 1:
@@ -341,11 +346,12 @@ package modeling
 //@     invariant outside_untouched: forall k int :: 0 <= k && k < len(modified) && !(start <= k && k < i) ==> modified[k] == old(modified[k])
 
 //@ func Mesh.ModifyFloat3AttributeParallelWithPoolSize
-//@   props C10
+//@   props C10 C01
 //@   forkjoin wg
 //@   callback f: pure
 //@   requires forall k int :: forked(k) == 0
 //@   returns r
+//@   ensures nothing_else: onlyV3Replaced(r, m, atr)
 //@   ensures same_length: len(r.v3Data[atr]) == len(m.v3Data[atr])
 //@   ensures elementwise: forall k int :: 0 <= k && k < len(m.v3Data[atr]) ==> r.v3Data[atr][k] == f(k, m.v3Data[atr][k])
 //@   loop 1:
@@ -383,3 +389,182 @@ package modeling
 //@ func Tri.P3Vec3Attr pure
 //@   requires 0 <= t.startingIndex + 2 && t.startingIndex + 2 < len(t.mesh.indices)
 //@   requires 0 <= t.mesh.indices[t.startingIndex + 2] && t.mesh.indices[t.startingIndex + 2] < len(t.mesh.v3Data[attr])
+
+// =====================================================================================================
+// C01 / C02 / C03 - the mesh value type.
+// Every function under contract here has the default frame "modifies nothing": the engine generates a
+// frame.* obligation at every store, append, copy and map write, which must target memory allocated
+// by the call itself (C01). Field-exact postconditions carry C03 ("exactly that, nothing else") and let
+// callers derive well-formedness (C02) of the result from that of the argument.
+// =====================================================================================================
+
+//@ spec sameLen(m Mesh) bool = (forall k1 string, k2 string :: has(m.v1Data, k1) && has(m.v1Data, k2) ==> len(m.v1Data[k1]) == len(m.v1Data[k2])) &&
+//@      (forall k1 string, k2 string :: has(m.v1Data, k1) && has(m.v2Data, k2) ==> len(m.v1Data[k1]) == len(m.v2Data[k2])) &&
+//@      (forall k1 string, k2 string :: has(m.v1Data, k1) && has(m.v3Data, k2) ==> len(m.v1Data[k1]) == len(m.v3Data[k2])) &&
+//@      (forall k1 string, k2 string :: has(m.v1Data, k1) && has(m.v4Data, k2) ==> len(m.v1Data[k1]) == len(m.v4Data[k2])) &&
+//@      (forall k1 string, k2 string :: has(m.v2Data, k1) && has(m.v2Data, k2) ==> len(m.v2Data[k1]) == len(m.v2Data[k2])) &&
+//@      (forall k1 string, k2 string :: has(m.v2Data, k1) && has(m.v3Data, k2) ==> len(m.v2Data[k1]) == len(m.v3Data[k2])) &&
+//@      (forall k1 string, k2 string :: has(m.v2Data, k1) && has(m.v4Data, k2) ==> len(m.v2Data[k1]) == len(m.v4Data[k2])) &&
+//@      (forall k1 string, k2 string :: has(m.v3Data, k1) && has(m.v3Data, k2) ==> len(m.v3Data[k1]) == len(m.v3Data[k2])) &&
+//@      (forall k1 string, k2 string :: has(m.v3Data, k1) && has(m.v4Data, k2) ==> len(m.v3Data[k1]) == len(m.v4Data[k2])) &&
+//@      (forall k1 string, k2 string :: has(m.v4Data, k1) && has(m.v4Data, k2) ==> len(m.v4Data[k1]) == len(m.v4Data[k2]))
+//@ spec noAttrs(m Mesh) bool = forall k string :: !has(m.v1Data, k) && !has(m.v2Data, k) && !has(m.v3Data, k) && !has(m.v4Data, k)
+//@ spec idxOK(m Mesh) bool = (forall i int, k string :: 0 <= i && i < len(m.indices) && has(m.v1Data, k) ==> 0 <= m.indices[i] && m.indices[i] < len(m.v1Data[k])) &&
+//@      (forall i int, k string :: 0 <= i && i < len(m.indices) && has(m.v2Data, k) ==> 0 <= m.indices[i] && m.indices[i] < len(m.v2Data[k])) &&
+//@      (forall i int, k string :: 0 <= i && i < len(m.indices) && has(m.v3Data, k) ==> 0 <= m.indices[i] && m.indices[i] < len(m.v3Data[k])) &&
+//@      (forall i int, k string :: 0 <= i && i < len(m.indices) && has(m.v4Data, k) ==> 0 <= m.indices[i] && m.indices[i] < len(m.v4Data[k])) &&
+//@      (noAttrs(m) ==> len(m.indices) == 0)
+//@ spec topoOK(m Mesh) bool = (m.topology == TriangleTopology ==> len(m.indices) % 3 == 0) && (m.topology == QuadTopology ==> len(m.indices) % 4 == 0)
+//@ spec wf(m Mesh) bool = sameLen(m) && idxOK(m) && topoOK(m)
+
+//@ spec sameAttrs(r Mesh, m Mesh) bool = r.v1Data == m.v1Data && r.v2Data == m.v2Data && r.v3Data == m.v3Data && r.v4Data == m.v4Data
+
+//@ func Mesh.Materials pure
+//@   props C01
+//@ func Mesh.SetIndices
+//@   props C01 C02 C03
+//@   returns r
+//@   ensures only_indices_replaced: r.indices == indices && sameAttrs(r, m) && r.materials == m.materials && r.topology == m.topology
+//@ func Mesh.SetMaterials
+//@   props C01 C03
+//@   returns r
+//@   ensures only_materials_replaced: r.materials == mat && sameAttrs(r, m) && r.indices == m.indices && r.topology == m.topology
+//@ func Mesh.SetMaterial
+//@   props C01 C03
+//@   returns r
+//@   ensures one_fresh_material: len(r.materials) == 1 && fresh(r.materials) && sameAttrs(r, m) && r.indices == m.indices && r.topology == m.topology
+//@ func Mesh.ClearAttributeData
+//@   props C01 C03
+//@   returns r
+//@   ensures no_attributes: r.v1Data == nil && r.v2Data == nil && r.v3Data == nil && r.v4Data == nil && noAttrs(r) && r.indices == m.indices && r.materials == m.materials && r.topology == m.topology
+
+//@ func Mesh.SetFloat1Data
+//@   props C01 C03
+//@   returns r
+//@   ensures only_family_replaced: r.v1Data == data && r.v2Data == m.v2Data && r.v3Data == m.v3Data && r.v4Data == m.v4Data && r.indices == m.indices && r.materials == m.materials && r.topology == m.topology
+//@ func Mesh.CopyFloat1Attribute
+//@   props C01 C03
+//@   returns r
+//@   ensures fresh_map: fresh(r.v1Data)
+//@   ensures others_same: r.v2Data == m.v2Data && r.v3Data == m.v3Data && r.v4Data == m.v4Data && r.indices == m.indices && r.materials == m.materials && r.topology == m.topology
+//@   ensures entry: len(src.v1Data[attr]) > 0 ==> has(r.v1Data, attr) && r.v1Data[attr] == src.v1Data[attr]
+//@   ensures removed: len(src.v1Data[attr]) == 0 ==> !has(r.v1Data, attr)
+//@   ensures rest: forall k string :: k != attr ==> (has(r.v1Data, k) <==> has(m.v1Data, k)) && (has(m.v1Data, k) ==> r.v1Data[k] == m.v1Data[k])
+
+//@ func Mesh.SetFloat2Data
+//@   props C01 C03
+//@   returns r
+//@   ensures only_family_replaced: r.v2Data == data && r.v1Data == m.v1Data && r.v3Data == m.v3Data && r.v4Data == m.v4Data && r.indices == m.indices && r.materials == m.materials && r.topology == m.topology
+//@ func Mesh.CopyFloat2Attribute
+//@   props C01 C03
+//@   returns r
+//@   ensures fresh_map: fresh(r.v2Data)
+//@   ensures others_same: r.v1Data == m.v1Data && r.v3Data == m.v3Data && r.v4Data == m.v4Data && r.indices == m.indices && r.materials == m.materials && r.topology == m.topology
+//@   ensures entry: len(src.v2Data[attr]) > 0 ==> has(r.v2Data, attr) && r.v2Data[attr] == src.v2Data[attr]
+//@   ensures removed: len(src.v2Data[attr]) == 0 ==> !has(r.v2Data, attr)
+//@   ensures rest: forall k string :: k != attr ==> (has(r.v2Data, k) <==> has(m.v2Data, k)) && (has(m.v2Data, k) ==> r.v2Data[k] == m.v2Data[k])
+
+//@ func Mesh.SetFloat3Data
+//@   props C01 C03
+//@   returns r
+//@   ensures only_family_replaced: r.v3Data == data && r.v1Data == m.v1Data && r.v2Data == m.v2Data && r.v4Data == m.v4Data && r.indices == m.indices && r.materials == m.materials && r.topology == m.topology
+//@ func Mesh.CopyFloat3Attribute
+//@   props C01 C03
+//@   returns r
+//@   ensures fresh_map: fresh(r.v3Data)
+//@   ensures others_same: r.v1Data == m.v1Data && r.v2Data == m.v2Data && r.v4Data == m.v4Data && r.indices == m.indices && r.materials == m.materials && r.topology == m.topology
+//@   ensures entry: len(src.v3Data[attr]) > 0 ==> has(r.v3Data, attr) && r.v3Data[attr] == src.v3Data[attr]
+//@   ensures removed: len(src.v3Data[attr]) == 0 ==> !has(r.v3Data, attr)
+//@   ensures rest: forall k string :: k != attr ==> (has(r.v3Data, k) <==> has(m.v3Data, k)) && (has(m.v3Data, k) ==> r.v3Data[k] == m.v3Data[k])
+
+//@ func Mesh.SetFloat4Data
+//@   props C01 C03
+//@   returns r
+//@   ensures only_family_replaced: r.v4Data == data && r.v1Data == m.v1Data && r.v2Data == m.v2Data && r.v3Data == m.v3Data && r.indices == m.indices && r.materials == m.materials && r.topology == m.topology
+//@ func Mesh.CopyFloat4Attribute
+//@   props C01 C03
+//@   returns r
+//@   ensures fresh_map: fresh(r.v4Data)
+//@   ensures others_same: r.v1Data == m.v1Data && r.v2Data == m.v2Data && r.v3Data == m.v3Data && r.indices == m.indices && r.materials == m.materials && r.topology == m.topology
+//@   ensures entry: len(src.v4Data[attr]) > 0 ==> has(r.v4Data, attr) && r.v4Data[attr] == src.v4Data[attr]
+//@   ensures removed: len(src.v4Data[attr]) == 0 ==> !has(r.v4Data, attr)
+//@   ensures rest: forall k string :: k != attr ==> (has(r.v4Data, k) <==> has(m.v4Data, k)) && (has(m.v4Data, k) ==> r.v4Data[k] == m.v4Data[k])
+
+
+// AttributeLength: the length of any attribute array (they all agree on a well-formed mesh), 0 without attributes
+//@ func Mesh.AttributeLength
+//@   props C01 C02
+//@   requires sameLen(m)
+//@   returns n
+//@   ensures is_common_length: (forall k string :: has(m.v1Data, k) ==> n == len(m.v1Data[k])) && (forall k string :: has(m.v2Data, k) ==> n == len(m.v2Data[k])) &&
+//@                             (forall k string :: has(m.v3Data, k) ==> n == len(m.v3Data[k])) && (forall k string :: has(m.v4Data, k) ==> n == len(m.v4Data[k]))
+//@   ensures zero_without_attributes: noAttrs(m) ==> n == 0
+//@   ensures non_negative: n >= 0
+
+//@ func Mesh.ToPointCloud
+//@   props C01 C02 C03
+//@   requires sameLen(m)
+//@   returns r
+//@   ensures attributes_untouched: sameAttrs(r, m) && r.materials == m.materials && r.topology == PointTopology
+//@   ensures already_points_same_mesh: m.topology == PointTopology ==> r.indices == m.indices
+//@   ensures identity_indices: m.topology != PointTopology ==> fresh(r.indices) && (forall i int :: 0 <= i && i < len(r.indices) ==> r.indices[i] == i)
+//@   ensures one_index_per_vertex: m.topology != PointTopology ==>
+//@       (forall k string :: has(m.v1Data, k) ==> len(r.indices) == len(m.v1Data[k])) && (forall k string :: has(m.v2Data, k) ==> len(r.indices) == len(m.v2Data[k])) &&
+//@       (forall k string :: has(m.v3Data, k) ==> len(r.indices) == len(m.v3Data[k])) && (forall k string :: has(m.v4Data, k) ==> len(r.indices) == len(m.v4Data[k])) &&
+//@       (noAttrs(m) ==> len(r.indices) == 0)
+//@   loop 1:
+//@     invariant bounds: 0 <= i && i <= len(indices) && fresh(indices) && off(indices) == 0
+//@     invariant identity: forall j int :: 0 <= j && j < i ==> indices[j] == j
+
+// ---- position transforms: exactly the Position attribute changes, by the stated map (C03, C17) ----
+//@ spec onlyV1Replaced(r Mesh, m Mesh, a string) bool = fresh(r.v1Data) && r.v2Data == m.v2Data && r.v3Data == m.v3Data && r.v4Data == m.v4Data &&
+//@      r.indices == m.indices && r.materials == m.materials && r.topology == m.topology &&
+//@      (forall k string :: k != a ==> (has(r.v1Data, k) <==> has(m.v1Data, k)) && (has(m.v1Data, k) ==> r.v1Data[k] == m.v1Data[k])) &&
+//@      len(r.v1Data[a]) == len(m.v1Data[a])
+//@ spec onlyV2Replaced(r Mesh, m Mesh, a string) bool = fresh(r.v2Data) && r.v1Data == m.v1Data && r.v3Data == m.v3Data && r.v4Data == m.v4Data &&
+//@      r.indices == m.indices && r.materials == m.materials && r.topology == m.topology &&
+//@      (forall k string :: k != a ==> (has(r.v2Data, k) <==> has(m.v2Data, k)) && (has(m.v2Data, k) ==> r.v2Data[k] == m.v2Data[k])) &&
+//@      len(r.v2Data[a]) == len(m.v2Data[a])
+//@ spec onlyV3Replaced(r Mesh, m Mesh, a string) bool = fresh(r.v3Data) && r.v1Data == m.v1Data && r.v2Data == m.v2Data && r.v4Data == m.v4Data &&
+//@      r.indices == m.indices && r.materials == m.materials && r.topology == m.topology &&
+//@      (forall k string :: k != a ==> (has(r.v3Data, k) <==> has(m.v3Data, k)) && (has(m.v3Data, k) ==> r.v3Data[k] == m.v3Data[k])) &&
+//@      len(r.v3Data[a]) == len(m.v3Data[a])
+//@ spec onlyV4Replaced(r Mesh, m Mesh, a string) bool = fresh(r.v4Data) && r.v1Data == m.v1Data && r.v2Data == m.v2Data && r.v3Data == m.v3Data &&
+//@      r.indices == m.indices && r.materials == m.materials && r.topology == m.topology &&
+//@      (forall k string :: k != a ==> (has(r.v4Data, k) <==> has(m.v4Data, k)) && (has(m.v4Data, k) ==> r.v4Data[k] == m.v4Data[k])) &&
+//@      len(r.v4Data[a]) == len(m.v4Data[a])
+//@ spec onlyPositionReplaced(r Mesh, m Mesh) bool = onlyV3Replaced(r, m, "Position")
+
+//@ func Mesh.Translate
+//@   props C01 C03 C17
+//@   returns r
+//@   ensures nothing_else: onlyPositionReplaced(r, m)
+//@   ensures moved: forall i int :: 0 <= i && i < len(m.v3Data["Position"]) ==> r.v3Data["Position"][i] == m.v3Data["Position"][i].Add(v)
+//@   loop 1:
+//@     invariant bounds: 0 <= i && i <= len(finalVerts) && len(finalVerts) == len(oldData) && fresh(finalVerts) && off(finalVerts) == 0 && oldData == m.v3Data["Position"]
+//@     invariant done: forall j int :: 0 <= j && j < i ==> finalVerts[j] == oldData[j].Add(v)
+
+//@ func Mesh.Rotate
+//@   props C01 C03 C17
+//@   returns r
+//@   ensures nothing_else: onlyPositionReplaced(r, m)
+//@   ensures rotated: forall i int :: 0 <= i && i < len(m.v3Data["Position"]) ==> r.v3Data["Position"][i] == q.Rotate(m.v3Data["Position"][i])
+//@   loop 1:
+//@     invariant bounds: 0 <= i && i <= len(finalVerts) && len(finalVerts) == len(oldData) && fresh(finalVerts) && off(finalVerts) == 0 && oldData == m.v3Data["Position"]
+//@     invariant done: forall j int :: 0 <= j && j < i ==> finalVerts[j] == q.Rotate(oldData[j])
+
+//@ func Mesh.ApplyTRS
+//@   props C01 C03 C17
+//@   returns r
+//@   ensures nothing_else: onlyPositionReplaced(r, m)
+//@   ensures transformed: forall i int :: 0 <= i && i < len(m.v3Data["Position"]) ==> r.v3Data["Position"][i] == transform.Transform(m.v3Data["Position"][i])
+
+//@ func Mesh.Scale$1
+//@   props C03 C17
+//@   ensures componentwise: result == v.MultByVector(amount)
+//@ func Mesh.Scale
+//@   props C01 C03 C17
+//@   returns r
+//@   ensures nothing_else: onlyPositionReplaced(r, m)
+//@   ensures scaled: forall i int :: 0 <= i && i < len(m.v3Data["Position"]) ==> r.v3Data["Position"][i] == m.v3Data["Position"][i].MultByVector(amount)
+
